@@ -568,8 +568,50 @@ func (r *router) forward(
 	if err != nil {
 		return nil, fmt.Errorf("failed to exchange, %w", err)
 	}
+	if !respQuestionMatch(resp, q) {
+		dnsmsg.ReleaseMsg(resp)
+		return nil, errRespQuestionMismatch
+	}
 	dnsmsg.RemoveEDNS0(resp)
 	return resp, nil
+}
+
+var errRespQuestionMismatch = errors.New("question of upstream response does not match the query")
+
+// respQuestionMatch reports whether resp carries no question, or exactly the
+// question q (names are compared ASCII-case-insensitively). Upstream
+// transports match responses by ID only.
+func respQuestionMatch(resp *dnsmsg.Msg, q *dnsmsg.Question) bool {
+	switch len(resp.Questions) {
+	case 0:
+		return true
+	case 1:
+		rq := resp.Questions[0]
+		return rq.Type == q.Type && rq.Class == q.Class && nameEqualFold(rq.Name, q.Name)
+	default:
+		return false
+	}
+}
+
+// nameEqualFold compares two wire format names. Length octets are always
+// less than 'A' so they can be folded as well.
+func nameEqualFold(a, b dnsmsg.Name) bool {
+	if len(a) != len(b) {
+		return false
+	}
+	for i := range a {
+		ca, cb := a[i], b[i]
+		if 'A' <= ca && ca <= 'Z' {
+			ca += 'a' - 'A'
+		}
+		if 'A' <= cb && cb <= 'Z' {
+			cb += 'a' - 'A'
+		}
+		if ca != cb {
+			return false
+		}
+	}
+	return true
 }
 
 func makeEmptyResp(q *dnsmsg.Question, rc *RequestContext, rcode uint16) {
